@@ -117,12 +117,12 @@ pub fn run(tier: Tier) -> i32 {
                 Ok(ls) if !ls.is_empty() && ls.iter().all(|&l| l >= 1 && (l as usize) <= n) => ls.iter().map(|&l| (l - 1) as usize).collect(),
                 _ => continue,
             };
-            let base = layout::Layout { gaps: vec![0; n + 1], tight: false, ending: 0, label: "default".into() };
+            let base = layout::Layout { gaps: vec![0; n + 1], tight: false, compact: false, ending: 0, label: "default".into() };
             let (t0, o0) = layout::render(&p.toks, &base);
             for g in (1..n).step_by(((n / 6).max(1)) as usize) {
                 let mut gaps = vec![0; n + 1];
                 gaps[g] = 1;
-                let (t1, o1) = layout::render(&p.toks, &layout::Layout { gaps, tight: false, ending: 0, label: format!("lf at gap {}", g) });
+                let (t1, o1) = layout::render(&p.toks, &layout::Layout { gaps, tight: false, compact: false, ending: 0, label: format!("lf at gap {}", g) });
                 for (text, offs) in [(&t0, &o0), (&t1, &o1), (&t0, &o0)] {
                     calls += 1;
                     let want: std::collections::BTreeSet<i32> = flagged.iter().map(|&t| layout::line_of(text, offs[t])).collect();
